@@ -39,6 +39,8 @@ def LOOKUPS(tag):
 # thread_list_stream::write proved for any number of threads / mappings (loop heads desugared by the extractor, ledger 3c)
 def SYSINFO(tag):
     return {"unit": "systeminfo", "functions": ["systeminfo_stream_write"], "tags": [tag], "tiers": Q}
+def RAWFILE(tag):
+    return {"unit": "raw_file", "functions": ["write_file"], "tags": [tag], "tiers": Q}
 def TLIST(tag):
     return {"unit": "thread_list", "functions": ["write", "get_thread_info_by_index"], "tags": [tag], "rlimit": 100, "tiers": Q}
 
@@ -468,7 +470,7 @@ PLAN["C11"] = {
                    "and the list it was handed has then been appended with exactly that failure (nothing when nothing failed); "
                    "suspend_threads records one soft error per unattachable thread and keeps going (bounded); generate_dump keeps succeeding when any "
                    "best-effort writer fails, leaves an unused entry and records exactly one soft error per failed step (complete relative to stubs, thorough)",
-    "verus": [{"unit": "dump", "functions": ["dump"], "tags": ["C11"], "tiers": Q}, SYSINFO("C11")],
+    "verus": [{"unit": "dump", "functions": ["dump"], "tags": ["C11"], "tiers": Q}, SYSINFO("C11"), RAWFILE("C11")],
     "kani": [{"tiers": Q, "jobs": 2, "timeout": 900, "harnesses": dict(K_SUSPEND_THREADS, **{"vk_suspend_thread_protocol": K_SUSPEND["vk_suspend_thread_protocol"]})},
              {"tiers": T, "jobs": 2, "timeout": 5400, "mem_gb": 24, "harnesses": K_GENERATE}],
     "native": [{"stem": "minidump_writer", "filter": "bprime_soft", "tiers": Q, "tests": {
@@ -486,7 +488,7 @@ PLAN["C18"] = {
     "explanation": "the memory-protection table and the 0-means-unset conversion of caller auxv values (Kani, complete); caller-supplied auxv values take "
                    "precedence over the kernel's for every subset of keys, the linker list of a fake target is reproduced exactly, and the raw /proc copies, "
                    "memory-info list and handle stream of a stopped child equal what /proc reports (native checks on concrete targets)",
-    "verus": [SYSINFO("C18")],
+    "verus": [SYSINFO("C18"), RAWFILE("C18")],
     "kani": [{"tiers": Q, "jobs": 2, "timeout": 600, "harnesses": {
         "vk_memory_protection_table": H("C", "memory_info_list_stream::get_memory_protection"),
         "vk_direct_auxv_from": H("C", "From<DirectAuxvDumpInfo> for AuxvDumpInfo")}}],
@@ -511,7 +513,7 @@ PLAN["C01"] = {
                    "thread_names_stream::write and app_memory::write by Kani (bounded); exactly 18 entries, each through write_to_file (Kani, thorough)",
     "verus": [dict(STACK, functions=["fill_thread_stack", "memory_list_stream_write", "exception_stream_write"], tags=["C01"]),
               {"unit": "dir_section", "functions": ["new", "dump_dir_entry", "write_to_file"], "tags": ["C01"], "tiers": Q},
-              {"unit": "app_memory", "functions": ["app_memory_write"], "tags": ["C01"], "tiers": Q}, LOOKUPS("C01"), TLIST("C01"), SYSINFO("C01"),
+              {"unit": "app_memory", "functions": ["app_memory_write"], "tags": ["C01"], "tiers": Q}, LOOKUPS("C01"), TLIST("C01"), SYSINFO("C01"), RAWFILE("C01"),
               # "no two objects overlap ... every memory descriptor designates an object inside the image" needs the memory list
               # of a request to hold only regions recorded by THAT request: the fresh-request-state obligation of dump() ([C19])
               {"unit": "dump", "functions": ["dump"], "tags": ["C01", "C19"], "tiers": Q},
@@ -597,7 +599,7 @@ LEVEL_TEXT = {
     "C15": "bounded: every named/unnamed pattern of 2 threads with symbolic ids and concrete names (Kani); every list of <= 3 threads over 8 name shapes incl. non-BMP names (native)",
     "C16": "unbounded proof for every Buffer/MemoryWriter/MemoryArrayWriter function Verus can read (all inputs, all buffer states); complete Kani proofs of the per-type size facts; alloc_from_array proved for any array length (loop head desugared by the extractor, recorded in the evidence); bounded Kani checks (stated bounds) of alloc_from_iter/write_string_to_location",
     "C17": "bounded: destinations of 3, 8, 11, 17 bytes, every source alignment and every readable interval for the ptrace strategy (Kani); all three strategies on a live child around a mapping end, 6144 reads (native); strategy selection complete (Kani)",
-    "C18": "complete proofs of two pure conversions, bounded-exhaustive check of auxv precedence; the content-equality clauses (kernel data) are not decidable here",
+    "C18": "unbounded proofs that write_file stores exactly the bytes its single read returned and that systeminfo_stream::write places the platform id and OS-version string; complete proofs of two pure conversions; bounded-exhaustive check of auxv precedence; equality with what the kernel reports is checked natively on a stopped child only",
     "C19": "unbounded proof on the verbatim text of dump() that, for every incoming writer state satisfying the writer invariant, generate_dump receives the per-request state of a fresh writer and the configuration is unchanged; the invariant itself is established by new() and kept by all nine configuration methods (proved verbatim), so the argument iterates over any API history; unbounded proofs that the two consumers emit only that state; the same obligation through the real callees by a complete Kani control-flow harness (thorough); native reuse histories incl. failed requests on live children",
     "C20": "unbounded proof of the keep/drop rule for stacks under skip-unreferenced and of the stack scanner itself (stack copies of any length, relative to a byteorder stand-in that Kani cross-checks at stated lengths)",
 }
